@@ -919,14 +919,18 @@ def extra_evidence(ctx, recs):
 def streams(ctx, scale=1):
     _translate()
     res = []
-    cfgs = ["base"] if ctx.tier == "quick" else ["base", "p381"] + sorted(HIGH_LEVELS)
+    # thorough: also the quick-sized stream on the sanitizer build of the base configuration (a report aborts the oracle: crash)
+    cfgs = ["base"] if ctx.tier == "quick" else ["base", "p381"] + sorted(HIGH_LEVELS) + ["base-san"]
     only = os.environ.get("C10_CFGS")
     if only:
         cfgs = only.split(",")
     for cfg in cfgs:
         exe = _exe(ctx, cfg)
         lines = ["cfg"]
-        for i, (pl, kv) in enumerate(_contexts(ctx, cfg, exe)):
+        san = cfg == "base-san"
+        for i, (pl, kv) in enumerate(_contexts(ctx, "base" if san else cfg, exe)):
+            if san and i >= 4:
+                break
             pairing = kv.get("embed", "0") == "12"
             if cfg in HIGH_LEVELS:
                 lines.append(pl)
@@ -943,10 +947,15 @@ def streams(ctx, scale=1):
             if int(kv["cnr"]) == 0:
                 levels = [n for n in levels if n not in (3, 9, 18, 54)]
             sc = scale if pairing and i < 2 else max(1, scale // 2)
+            if san:
+                sc = 0.05 * scale
             lines.append(pl)
-            lines += gen_context(ctx.rng, kv, ctx.tier, sc, levels, g2zero=pairing and (i < 2 or ctx.tier == "thorough"))
+            lines += gen_context(ctx.rng, kv, ctx.tier, sc, levels, g2zero=pairing and (i < 2 or ctx.tier == "thorough") and not san)
             TOWERS[(cfg, pl)] = towers(kv)
-        res.append({"name": "fpx-" + cfg, "cfg": cfg, "exe": exe, "lines": lines})
+        st = {"name": "fpx-" + cfg, "cfg": cfg, "exe": exe, "lines": lines}
+        if san:
+            st["env"] = dict(os.environ, ASAN_OPTIONS="detect_leaks=0", UBSAN_OPTIONS="print_stacktrace=1")
+        res.append(st)
     return res
 
 
